@@ -14,7 +14,11 @@ import (
 // C02 — the running HAProxy never diverges from the on-disk configuration after runtime updates.
 
 func genC02(t *rapid.T) DynCase {
-	h := genDynHistory(t, dynProfile(true, true), dynKinds, sizeScale(8, 14))
+	p := dynProfile(true, true)
+	// DNS based backends: a server-template whose size is the number of endpoints, never updated by runtime commands
+	p.GlobalKeys = append(p.GlobalKeys, annChoice{"dns-resolvers", []string{"kubernetes=10.0.0.2:53"}})
+	p.Ann = append(p.Ann, annChoice{"use-resolver", []string{"kubernetes"}})
+	h := genDynHistory(t, p, dynKinds, sizeScale(8, 14))
 	c := DynCase{Hist: h}
 	kinds := []string{simhap.FaultRefuse, simhap.FaultDrop, simhap.FaultDropApp, simhap.FaultNotOK}
 	for range h.Batches {
